@@ -123,7 +123,8 @@ static void mip_scenarios() {
     mip_scn("MIP.add_space_dimensions" + sfx, v, [](MIP_Problem& p) { p.add_space_dimensions_and_embed(2); p.add_constraint(Variable(3) + Variable(4) <= 3); p.set_objective_function(lin(0, 1, 1) + Variable(4)); (void) p.solve(); });
     mip_scn("MIP.set_objective_solve" + sfx, v, [](MIP_Problem& p) { p.set_objective_function(lin(0, -1, 1, -2)); p.set_optimization_mode(MINIMIZATION); (void) p.solve(); (void) p.optimizing_point(); });
     mip_scn("MIP.copy" + sfx, v, [](MIP_Problem& p) { MIP_Problem z(p); p.m_swap(z); });
-    mip_scn("MIP.assign" + sfx, v, [](MIP_Problem& p) { MIP_Problem* q = mk_mip(1); try { p = *q; } catch (...) { delete q; throw; } delete q; });
+    // the source is built once, outside the faulted region (building it inside would make the HARNESS leak when mk_mip itself is interrupted)
+    mip_scn("MIP.assign" + sfx, v, [](MIP_Problem& p) { static MIP_Problem* src = 0; if (!src) { bool a = c14::armed; c14::armed = false; src = mk_mip(1); c14::armed = a; } p = *src; });
     mip_scn("MIP.steepest_edge" + sfx, v, [](MIP_Problem& p) { p.set_control_parameter(MIP_Problem::PRICING_STEEPEST_EDGE_EXACT); (void) p.solve(); });
   }
 }
@@ -164,7 +165,7 @@ static void pip_scenarios() {
     pip_scn("PIP.add_constraint_solve" + sfx, v, [](PIP_Problem& p) { p.add_constraint(Variable(0) + Variable(1) <= Variable(3) + 4); (void) p.solve(); });
     pip_scn("PIP.add_space_dimensions" + sfx, v, [](PIP_Problem& p) { p.add_space_dimensions_and_embed(1, 1); p.add_constraint(Variable(4) + Variable(0) >= Variable(5)); (void) p.solve(); });
     pip_scn("PIP.copy" + sfx, v, [](PIP_Problem& p) { PIP_Problem z(p); (void) z.solve(); });
-    pip_scn("PIP.assign" + sfx, v, [](PIP_Problem& p) { PIP_Problem* q = mk_pip(1); try { p = *q; } catch (...) { delete q; throw; } delete q; });
+    pip_scn("PIP.assign" + sfx, v, [](PIP_Problem& p) { static PIP_Problem* src = 0; if (!src) { bool a = c14::armed; c14::armed = false; src = mk_pip(1); c14::armed = a; } p = *src; });
     if (v < 2) pip_scn("PIP.big_parameter" + sfx, v, [](PIP_Problem& p) { p.add_space_dimensions_and_embed(0, 1); p.add_constraint(Variable(4) >= Variable(0)); p.set_big_parameter_dimension(4); (void) p.solve(); });
   }
 }
@@ -231,9 +232,14 @@ static C_Polyhedron* ov_poly(int dim, int maxc) {
   for (int i = 0; i < dim; ++i) { cs.insert(Variable(i) >= -maxc * 3); cs.insert(Variable(i) <= maxc * 3); }
   return new C_Polyhedron(cs);
 }
+static const char* opn_of(int op) {
+  static const char* opn[] = { "minimize", "intersection", "hull", "affine_image", "difference", "widening", "gen_affine_image", "time_elapse", "add_constraints", "maximize" };
+  return opn[op];
+}
 static int overflow_mode(long seed, long ncases) {
   long overflows = 0, completed = 0, leaks = 0, invalid = 0, unusable = 0, argchg = 0, other = 0;
   std::map<std::string, long> byop;
+  for (int i = 0; i < 10; ++i) byop[opn_of(i)] = 0;      // nodes allocated here, not inside a measured case
   // warm-up
   { ov_rng = 12345; C_Polyhedron* p = ov_poly(2, 2); try { (void) p->minimized_generators(); } catch (...) {} delete p; purge_caches(); }
   for (long id = 0; id < ncases; ++id) {
@@ -278,7 +284,7 @@ static int overflow_mode(long seed, long ncases) {
     }
     delete x; delete y; delete ys; purge_caches();
     long leak = c14::live_blocks - base;
-    if (leak != 0) { ++leaks; std::cout << "case id=" << id << " leak=" << leak << " out=" << out << "\n"; }
+    if (leak != 0) { ++leaks; std::cout << "case id=" << id << " op=" << (built ? opn_of(op) : "build") << " leak=" << leak << " out=" << out << "\n"; }
   }
   std::cout << "done overflow cases=" << ncases << " overflows=" << overflows << " completed=" << completed << " other=" << other << " leaks=" << leaks << " invalid=" << invalid
             << " unusable=" << unusable << " argchg=" << argchg;
